@@ -175,6 +175,18 @@ var wrongKind = []string{
 	"exception E {\n  1: optional string ErrorName\n  2: optional string Error\n}\n",
 	"struct S {\n  1: optional i32 getA\n  2: optional i32 a\n  3: optional i32 isSetA\n}\n",
 	"service S {\n  void f(1: i32 a (go.name = \"Count\"))\n}\n",
+	"service S {\n  void f(1: i32 a (go.name))\n}\n",
+	"service S {\n  void f(1: i32 a (go.name = \"\"))\n}\n",
+	"exception E {}\nservice S {\n  void f() throws (1: E e (go.name))\n}\n",
+	"service S {\n  void f() (go.name)\n}\n",
+	"service S {\n} (go.name)\n",
+	"struct S {\n} (go.name)\n",
+	"enum E {\n A (go.name)\n}\n",
+	"enum E {\n A\n} (go.name)\n",
+	"typedef i32 T (go.name)\n",
+	"struct S {\n  1: optional i32 a (go.name)\n}\n",
+	"union U {\n  1: optional i32 a (go.name, go.label, go.tag)\n}\n",
+	"struct S {\n  1: optional set<i32> (go.type) a\n}\n",
 	"enum E { A = 1, B = 1, C = 2 }\n",
 }
 
